@@ -301,6 +301,15 @@ CK_RV P11Attribute::retrieve(Token *token, bool isPrivate, CK_VOID_PTR pValue, C
 			return CKR_GENERAL_ERROR;
 		}
 	}
+	else if (!(attr.isBooleanAttribute() && size == sizeof(CK_BBOOL)) &&
+		 !(attr.isUnsignedLongAttribute() && size == sizeof(CK_ULONG)))
+	{
+		// The value is copied according to the kind of the stored attribute
+		// while the buffer of the caller is checked against the fixed size.
+		// An object file can be corrupt: the two have to agree.
+		ERROR_MSG("Internal error: the stored attribute does not have the kind of the attribute");
+		return CKR_GENERAL_ERROR;
+	}
 
 	// [PKCS#11 v2.40, C_GetAttributeValue]
 	// 3. Otherwise, if the pValue field has the value NULL_PTR, then the
